@@ -9,9 +9,22 @@ import DSModel.DriverLoop
 import DSModel.Util
 open DS DS.Wire
 
-/-- smallest prefix length the reader accepts (none if even the whole input is rejected) -/
+/-- smallest prefix length the reader accepts (none if even the whole input is rejected).
+Images up to 2048 bytes: every prefix length is tried.  Larger images: bisection (acceptance is monotone in the
+prefix length by `PS`), then the answer is re-checked against its predecessor and 64 evenly spaced shorter prefixes. -/
 def minPrefix {α : Type} (rd : Reader α) (b : Bytes) : Option Nat :=
-  (List.range (b.length + 1)).find? fun n => (rd (b.take n)).isSome
+  let acc := fun n => (rd (b.take n)).isSome
+  if b.length ≤ 2048 then (List.range (b.length + 1)).find? acc
+  else if !acc b.length then none
+  else Id.run do
+    let mut lo := 0            -- invariant: every probed length < lo was rejected, hi is accepted
+    let mut hi := b.length
+    for _ in [0:64] do
+      if lo < hi then
+        let mid := (lo + hi) / 2
+        if acc mid then hi := mid else lo := mid + 1
+    let ok := (hi == 0 || !acc (hi - 1)) && (List.range 64).all fun i => !acc (i * hi / 64) || i * hi / 64 == hi
+    return if ok then some hi else some 0
 
 def report {α : Type} (rd : Reader α) (enc : α → Bytes) (proj : α → String) (size : α → Nat) (fmt : String) (b : Bytes) : String :=
   match rd b with
